@@ -329,6 +329,11 @@ func c08ShowEntry(e *cipher.VerifCacheEntry) string {
 	if e == nil {
 		return "none"
 	}
+	if e.CreateTime.Round(0) != e.CreateTime && c08ForgeOK {
+		// the creation instant carries a monotonic reading (a forged instant of a history): show it relative to the
+		// origin all forged instants share (Sub uses the monotonic readings)
+		return fmt.Sprintf("%d/%d/%d", e.Epoch, e.CreateTime.UnixNano(), int64(e.CreateTime.Sub(c08ForgeBase)))
+	}
 	return fmt.Sprintf("%d/%d", e.Epoch, e.CreateTime.UnixNano())
 }
 
@@ -687,6 +692,86 @@ func c08Established(c *core.Ctx, k c08Case) {
 	}
 }
 
+// c08Concurrent: goroutines share the process-wide cache and two decryptors and call getCachedCiphers /
+// tryDecryptAt at instants on both sides of a slot boundary.  No schedule is comparable with a sequential
+// model run; what cache_never_crosses_slots_concurrent says of EVERY interleaving is checked on each result:
+// the entry used was derived for the slot of the caller's own instant.
+func c08Concurrent(c *core.Ctx, k c08Case) {
+	hp := core.UnHex(k.Pass)
+	cipher.VerifResetCipherCache()
+	decs := make([]*cipher.StatelessDecryptor, 2)
+	for i := range decs {
+		decs[i], _ = cipher.VerifNewStatelessDecryptor(hp)
+	}
+	boundary := k.TNs // a rounding tie: instants below it belong to slot A, the others to slot B = A + 120 s
+	slotA, slotB := cipher.VerifCipherKeyEpoch(time.Unix(0, boundary-1)), cipher.VerifCipherKeyEpoch(time.Unix(0, boundary))
+	want := map[int64][][]byte{}
+	// what tryDecryptAt is given: at an instant of slot A a segment sealed for slot A-120 s, at an instant of slot B one
+	// sealed for slot B+120 s — each opens under the entry of the caller's own slot and NOT under the other slot's
+	// entry (A's keys are A-120, A, B; B's are A, B, B+120), so success identifies the entry the call used
+	probe := map[int64][]byte{}
+	for _, e := range []int64{slotA, slotB} {
+		want[e], _ = cipher.VerifKeysAt(hp, time.Unix(e, 0))
+	}
+	probe[slotA], _ = c08Seal(want[slotA][0], []byte("metadata-sized plaintext 32bytes"))
+	probe[slotB], _ = c08Seal(want[slotB][2], []byte("metadata-sized plaintext 32bytes"))
+	const workers, per = 8, 150
+	type job struct {
+		lookup bool
+		dec    int
+		now    int64
+	}
+	jobs := make([][]job, workers)
+	for w := range jobs {
+		for i := 0; i < per; i++ {
+			off := c.Rand.Int63n(20e9) - 10e9
+			if c.Rand.Intn(3) == 0 {
+				off = c.Rand.Int63n(5) - 2
+			}
+			jobs[w] = append(jobs[w], job{c.Rand.Intn(2) == 0, c.Rand.Intn(2), boundary + off})
+		}
+	}
+	var mu sync.Mutex
+	var bads []string
+	n := 0
+	var wg sync.WaitGroup
+	for w := 0; w < workers; w++ {
+		wg.Add(1)
+		go func(w int) {
+			defer wg.Done()
+			for _, j := range jobs[w] {
+				now := time.Unix(0, j.now)
+				ep := cipher.VerifCipherKeyEpoch(now)
+				okE, what := false, ""
+				if j.lookup {
+					e, err := cipher.VerifGetCachedCiphers(string(hp), now)
+					okE = err == nil && e.Epoch == ep && len(e.Keys) == 3
+					for i := 0; okE && i < 3; i++ {
+						okE = bytes.Equal(e.Keys[i], want[ep][i])
+					}
+					what = fmt.Sprintf("getCachedCiphers at %dns (slot %d) returned the entry %s", j.now, ep, c08ShowEntry(&e))
+				} else {
+					_, _, _, derr := decs[j.dec].VerifTryDecryptAt(probe[ep], now)
+					okE = derr == nil
+					what = fmt.Sprintf("tryDecryptAt (decryptor %d) at %dns (slot %d) did not use the entry of its slot: %v", j.dec, j.now, ep, derr)
+				}
+				mu.Lock()
+				n++
+				if !okE {
+					bads = append(bads, what)
+				}
+				mu.Unlock()
+			}
+		}(w)
+	}
+	wg.Wait()
+	c.Eval(fmt.Sprintf("conc/%s/%d", k.Pass, k.TNs), true)
+	c.Hist("concurrent_ops", fmt.Sprintf("%d goroutines x %d ops around a slot boundary", workers, per))
+	if len(bads) > 0 {
+		c.Violate("C08/cache/crosses-slots/concurrent", fmt.Sprintf("%d of %d concurrent operations used key material of another slot, e.g. %s", len(bads), n, bads[0]), k)
+	}
+}
+
 func c08Live(c *core.Ctx) {
 	// exported API on the real clock: the stateless cipher handed out now is the current slot's
 	hp := sha256.Sum256([]byte("c08-live"))
@@ -716,6 +801,8 @@ func c08Run(c *core.Ctx, k c08Case) {
 		c08Handshake(c, k)
 	case "est":
 		c08Established(c, k)
+	case "conc":
+		c08Concurrent(c, k)
 	case "minute":
 		c08Minute(c, k)
 	case "mid":
@@ -983,6 +1070,10 @@ func init() {
 				for _, d := range []int64{241e9, 600e9, 36000e9, -3600e9} {
 					c08Run(c, c08Case{Kind: "est", TNs: t0, DNs: d, Pass: pw})
 				}
+			}
+			// goroutines sharing the cache and two decryptors around a rounding tie
+			for i := 0; i < c.N(2, 20); i++ {
+				c08Run(c, c08Case{Kind: "conc", TNs: (1_700_000_100 + 120*int64(i)) * 1e9, Pass: hp()})
 			}
 			// deterministic cache-age / jitter / monotonic / several-decryptor histories
 			for _, k := range c08AgeHistories(hp) {
